@@ -532,6 +532,8 @@ func (r *EngineRunner) Exec(f []string) (res string) {
 	case "files":
 		r.checkFileLimit()
 		return r.listing()
+	case "hintcheck":
+		return r.hintCheck()
 	}
 	if strings.HasPrefix(op, "it") {
 		return r.execIter(f)
